@@ -369,6 +369,7 @@ func TestC16(t *testing.T) {
 	c16Durations(v, rng)
 	c16Enctypes(v)
 	c16RealmLines(m, v, rng)
+	c16RealmsSection(m, v, rng)
 	c16Resolve(m, v, rng)
 	v.ModelAsks = m.N
 	v.Write(t)
@@ -479,17 +480,24 @@ func c16File(v *Verdict, rng *RNG, idx int) {
 		}
 		// KDC lookup: each configured server exactly once
 		if len(wantK) > 0 {
-			cnt, kdcs, err := cfg.GetKDCs(r.name, false)
-			var got []string
-			for i := 1; i <= len(kdcs); i++ {
-				got = append(got, kdcs[i])
-			}
-			sort.Strings(got)
-			w := append([]string{}, wantK...)
-			sort.Strings(w)
-			if err != nil || cnt != len(wantK) || !eqStrs(got, w) {
-				fail("getkdcs", "GetKDCs does not return each configured server exactly once", fmt.Sprintf("got %v want %v err %v", got, w, err))
-				return
+			// ... on every call, not only the first one, and the configuration stays as loaded
+			for call := 1; call <= 4; call++ {
+				cnt, kdcs, err := cfg.GetKDCs(r.name, false)
+				var got []string
+				for i := 1; i <= len(kdcs); i++ {
+					got = append(got, kdcs[i])
+				}
+				sort.Strings(got)
+				w := append([]string{}, wantK...)
+				sort.Strings(w)
+				if err != nil || cnt != len(wantK) || !eqStrs(got, w) {
+					fail("getkdcs", "GetKDCs does not return each configured server exactly once", fmt.Sprintf("call %d: got %v want %v err %v", call, got, w, err))
+					return
+				}
+				if g2 := cfg.Realms[i]; !eqStrs(g2.KDC, wantK) {
+					fail("getkdcs-config", "GetKDCs changed the configured server list", fmt.Sprintf("call %d: configuration now holds %v, loaded %v", call, g2.KDC, wantK))
+					return
+				}
 			}
 		}
 	}
@@ -647,6 +655,9 @@ func c16RealmLines(m *Model, v *Verdict, rng *RNG) {
 		"kpasswd_server = kp.example.com:464", "master_kdc = m.example.com:88", "default_domain = example.com",
 		"auth_to_local_names = {", "other = {", "}", "someuser = localuser", "v4_instance_convert = {", "v4_realm = OLD",
 		"", "   ", "# comment", "unknown = value", "kdc =", "nonsense",
+		// single-line relations whose value holds both brackets: they open and close nothing
+		"auth_to_local = RULE:[2:$1](^.*{3}$)s/@.*//", "pkinit_identities = FILE:/etc/pki/%{username}.pem", "kdc = k{6}.example.com",
+		"admin_server = }adm{.example.com",
 	}
 	n := 1500
 	if Thorough() {
@@ -734,6 +745,111 @@ func c16RealmLines(m *Model, v *Verdict, rng *RNG) {
 		}
 		if okBal && goRes != mc {
 			v.Violate("correspondence", "c16:realm-lines-model", "Realm.parseLines and its Lean model disagree", map[string]string{"file": text, "go": goRes, "model": mo})
+		}
+	}
+}
+
+// ---- the [realms] section as a whole: splitting into realm blocks, then each block ----
+
+func outerFeatures(raw string) string {
+	l := raw
+	if idx := strings.IndexAny(l, "#;"); idx != -1 {
+		l = l[:idx]
+	}
+	l = strings.TrimSpace(l)
+	f := func(b bool) string {
+		if b {
+			return "1"
+		}
+		return "0"
+	}
+	name := strings.TrimSpace(strings.Split(l, "=")[0])
+	return f(l == "") + f(strings.Contains(l, "{")) + f(strings.Contains(l, "=")) + f(strings.Contains(l, "}")) + "/" + XS(name) + "/" + lineFeatures(raw)
+}
+
+func c16RealmsSection(m *Model, v *Verdict, rng *RNG) {
+	alphabet := []string{
+		"A.REALM = {", "B.REALM={", " C.REALM = {   ", "EMPTY.REALM = { }", "ONE.LINE = { kdc = inline.example.com }", "}", "}", "}", " } ",
+		"kdc = k1.example.com", "kdc = k2.example.com:750*", "admin_server = adm.example.com", "default_domain = example.com",
+		"auth_to_local_names = {", "v4_instance_convert = {", "v4_realm = OLD", "someuser = localuser", "", "  ", "nonsense", "{", "= {",
+		"pkinit_identities = FILE:/etc/pki/%{username}.pem", "admin_server = }adm{.example.com", "kdc = k3.example.com ; trailing comment",
+	}
+	n := 1500
+	if Thorough() {
+		n = 40000
+	}
+	for i := 0; i < n; i++ {
+		var lines []string
+		depth := 0
+		for j, l := 0, 1+rng.Intn(12); j < l; j++ {
+			a := alphabet[rng.Intn(len(alphabet))]
+			// steer most sequences towards well-formed sections so that the deep paths are reached
+			opens, closes := strings.Contains(a, "{"), strings.Contains(a, "}")
+			if rng.Intn(5) != 0 {
+				if depth == 0 && !opens {
+					continue
+				}
+				if closes && !opens && depth == 0 {
+					continue
+				}
+			}
+			if opens {
+				depth++
+			}
+			if closes && depth > 0 {
+				depth--
+			}
+			lines = append(lines, a)
+		}
+		for ; depth > 0 && rng.Intn(6) != 0; depth-- {
+			lines = append(lines, "}")
+		}
+		text := "[realms]\n" + strings.Join(lines, "\n") + "\n"
+		var cfg *config.Config
+		var err error
+		pan := Protect(func() { cfg, err = config.NewFromString(text) })
+		var toks []string
+		for _, ln := range lines {
+			toks = append(toks, outerFeatures(ln))
+		}
+		mo := m.Ask("conf.realms 1 " + strings.Join(toks, " "))
+		v.Case("section/"+strings.Join(toks, " "), "realms section -> "+strings.Fields(mo + " -")[0])
+		if pan != "" {
+			v.Violate("failing-input", "c16:realms-section-panic", "the [realms] section parser panicked", map[string]string{"file": text, "panic": pan})
+			continue
+		}
+		_, unsupported := err.(config.UnsupportedDirective)
+		goRes := ""
+		switch {
+		case err != nil && !unsupported:
+			goRes = "err"
+		default:
+			h := func(l []string) string {
+				x := make([]string, len(l))
+				for i, s := range l {
+					x[i] = XS(s)
+				}
+				return List(x)
+			}
+			var rs []string
+			for _, r := range cfg.Realms {
+				rs = append(rs, fmt.Sprintf("%s admin=%s kdc=%s kpasswd=%s master=%s dd=%s", XS(r.Realm), h(r.AdminServer), h(r.KDC), h(r.KPasswdServer), h(r.MasterKDC), XS(r.DefaultDomain)))
+			}
+			goRes = "ok "
+			if unsupported {
+				goRes += "unsupported "
+			}
+			goRes += strings.Join(rs, " | ")
+		}
+		mc := mo
+		if strings.HasPrefix(mc, "err") {
+			mc = "err"
+		}
+		if i == 0 {
+			v.Sample("conf.realms " + strings.Join(toks, " ") + " -> " + cut(mo, 200))
+		}
+		if strings.TrimSpace(goRes) != strings.TrimSpace(mc) {
+			v.Violate("correspondence", "c16:realms-section-model", "parseRealms and its Lean model disagree", map[string]string{"file": text, "go": goRes, "model": mo})
 		}
 	}
 }
